@@ -73,6 +73,7 @@ def main(argv=None):
     samples = []
     maxratio = 0.0
     n_eval = 0
+    walls = []
     for case, res in zip(cases, results):
         if res is None:
             inconclusive.append(("no result", case))
@@ -89,6 +90,7 @@ def main(argv=None):
             skipped[res["skipped"]] = skipped.get(res["skipped"], 0) + 1
             continue
         n_eval += 1
+        walls.append((float(res.get("wall", 0.0)), case.get("_i", -1)))
         for c in res.get("cells", []):
             cells[c] = cells.get(c, 0) + 1
         for m, n in res.get("monitors", {}).items():
@@ -150,6 +152,9 @@ def main(argv=None):
         "cases_generated": len(cases),
         "known_findings_hit": {m: len(v) for m, v in known_hits.items()},
         "inconclusive": [r for r, _ in inconclusive][:5],
+        "case_wall_s_total": round(sum(w for w, _ in walls), 1),
+        "slowest_cases": [{"case_index": i, "wall_s": round(w, 1)}
+                          for w, i in sorted(walls, reverse=True)[:3]],
     }
     if hasattr(mod, "extra_coverage"):
         coverage.update(mod.extra_coverage(results, tier))
@@ -172,6 +177,8 @@ def main(argv=None):
           f"evaluated={n_eval} distinct_nontrivial={len(signatures)} "
           f"skipped={sum(skipped.values())} wall={wall:.1f}s "
           f"worst_ratio={maxratio:.3g}")
+    print("  slowest cases:", coverage["slowest_cases"],
+          "cpu total", coverage["case_wall_s_total"])
     print("  cells:", json.dumps(coverage["cells"]))
     print("  monitors:", json.dumps(coverage["monitor_evaluations"]))
     for mech, hits in known_hits.items():
